@@ -7,6 +7,7 @@ namespace QF.Props.C10
 -- them makes a `gen_*_canon` theorem of this property's modules fail, renaming their locals or reformatting them changes nothing:
 -- `QFrame.setColumn`, `QFrame.Slice`: `Gen.guardAst` + `Gen.projectAst`, `C08Guards.gen_guards_canon` + `gen_guards_semantics`, `C08ProjectGen.gen_project_canon` + `gen_project_sticky`.
 -- `New`: `Gen.guardAst` + `Gen.newTailAst`, `C08Guards.gen_guards_canon`, `C08Construct.gen_construct_canon` + `gen_new_reject_iff`. `CheckName`: `Gen.checkNameAst`, `C08Guards.gen_checkname_canon`.
-theorem tie : Tie.sameAll ["qframe.Aggregate"] = true := by decide
+-- Aggregate is regenerated: loops in `Gen.aggregateAst` (C04LoopsGen), glue with the unknown-column and duplicate-name errors in `Gen.aggregateGlueAst` (C04GlueGen), guards in C10Guards; nothing of C10 is compared as text any more.
+theorem tie : Tie.sameAll [] = true := by decide
 
 end QF.Props.C10
